@@ -24,9 +24,9 @@ def section_euler(rep, mutate=None):
     T = m['T']
     if mutate:
         mutate(m)
-    r = S.declare_angle('roll', -180, 180)
+    r = S.declare_angle('roll', -360, 360)
     p = S.declare_angle('pitch', -89, 89)
-    h = S.declare_angle('heading', -180, 180)
+    h = S.declare_angle('heading', -360, 360)
     sr, cr = r.deg2rad().sin(), r.deg2rad().cos()
     sp, cp = p.deg2rad().sin(), p.deg2rad().cos()
     sh, ch = h.deg2rad().sin(), h.deg2rad().cos()
@@ -186,9 +186,9 @@ def section_phi(rep, mutate=None):
     if mutate:
         mutate(m)
     eps = S.formal(0)
-    r = S.declare_angle('roll', -180, 180)
+    r = S.declare_angle('roll', -360, 360)
     p = S.declare_angle('pitch', -89, 89)
-    h = S.declare_angle('heading', -180, 180)
+    h = S.declare_angle('heading', -360, 360)
     rph = S.O([r, p, h])
     phi = S.O([S.var('phi0'), S.var('phi1'), S.var('phi2')])
     S.C.dom += [z3.Real('phi%d' % i) >= -1 for i in range(3)] + [z3.Real('phi%d' % i) <= 1 for i in range(3)]
@@ -256,7 +256,7 @@ def _rotvec_all(rep, mutate=None):
 def run(run):
     from .. import enga, common
     from .. import symreal as S
-    rep = enga.AReport(run, box={'roll': (-179, 179), 'pitch': (-88, 88), 'heading': (-179, 179),
+    rep = enga.AReport(run, box={'roll': (-360, 360), 'pitch': (-88, 88), 'heading': (-360, 360),
                                  'v0': (-2, 2), 'v1': (-2, 2), 'v2': (-2, 2), 'phi0': (-1, 1), 'phi1': (-1, 1), 'phi2': (-1, 1)},
                        consts={'d_cos': 0.0, 'd_k1': 0.0, 'd_k2': 0.0})
     run.assume('exact real arithmetic: the 1e-16-level cancellation in (1-cos n)/n^2 just above the branch threshold is a rounding effect and outside',
@@ -275,9 +275,16 @@ def run(run):
         bad = rep.batch(obls)
         finish_bad(rep, bad)
     if not run.only or run.only == 'phi':
-        obls = section_phi(rep)
-        bad = rep.batch(obls)
-        finish_bad(rep, bad)
+        try:
+            obls = section_phi(rep)
+            bad = rep.batch(obls)
+            finish_bad(rep, bad)
+        except S.SymbolicBranch:
+            # the function branches on a symbolic value (it does not in the unmodified tree): every
+            # outcome is explored, the obligations of a path hold under its path condition
+            for obls_p, ctx_p in enga.section_paths(lambda: section_phi(rep)):
+                S.set_ctx(ctx_p)
+                finish_bad(rep, rep.batch(obls_p, ctx=ctx_p))
     # reachability witness: constraints alone satisfiable
     import z3
     s = z3.Solver()
@@ -400,7 +407,7 @@ def replay(spec):
     return {'violated': False, 'error': 'unknown check %r' % chk}
 
 
-RIM = {'lat': -84.6, 'lon': 150.0, 'alt': 15000.0, 'VN': 250.0, 'VE': -200.0, 'VD': 5.0, 'roll': 120.0, 'pitch': -60.0, 'heading': -170.0}
+RIM = {'lat': -84.6, 'lon': 150.0, 'alt': 15000.0, 'VN': 250.0, 'VE': -200.0, 'VD': 5.0, 'roll': -200.0, 'pitch': -60.0, 'heading': 300.0}
 
 
 def FALLBACK(tier):
